@@ -170,7 +170,9 @@ CLAIMS = {
                      "the number of EOF tokens delivered): feed() never delivers one (C04_html/xml_feed_delivers_no_eof), an end() "
                      "that returns delivers exactly one (C04_html/xml_end_delivers_exactly_one_eof), and the whole driver from a "
                      "fresh tokenizer - any chunking, pauses, injected text, sink, fuel, start state - ends with exactly one "
-                     "(C04_html/xml_driver_exactly_one_eof). All four clauses of the property are thereby theorems about the "
+                     "(C04_html/xml_driver_exactly_one_eof); the count of EOF tokens is a function of the observation of the default-mode "
+                     "simulation, so the same holds in the REAL default configuration (exact_errors = false, chunked queue, bulk "
+                     "reads, SIMD: C04_html/xml_default_mode_exactly_one_eof, Inst/InstEofDefault.v). All four clauses of the property are thereby theorems about the "
                      "tokenizer interpreters in reference semantics. Tree builders, stack depth and "
                      "time are covered by the harness only (panic/abort/hang watch, queue-empty and single-EOF oracles, deep nesting).",
                 note=TOK_NOTE, tech="reflective Coq checks (EOF rank, char-ref states) + Coq termination proof of the tokenizer interpreter with explicit fuel bound (potential function, rank check on the regenerated table) + totality oracle incl. pathological inputs"),
